@@ -32,10 +32,11 @@ RULE_TEXT = (
 
 # allow-table of R10.3: semantic key -> (reason, optional grammar re-check)
 _GROUP_NONEMPTY = ("a sqlparse token group (Function / Identifier / Parenthesis) is never empty, so its last token exists", None)
+_STMT_WRAPS_ONE = ("a sqlfluff `statement` node wraps exactly one child statement segment (StatementSegment grammar is a single OneOf)", "statement-wraps-one")
 ALLOW = {
     "parser.sqlfluff.utils.extract_identifier:list_child_segments():index:-1": ("an alias_expression / identifier-bearing segment has at least one non-negligible child (the identifier itself)", "alias-nonempty"),
     "parser.sqlfluff.utils.extract_column_qualifier:list_child_segments():index:-1": ("a column_reference has at least one identifier child (Delimited, min 1)", "reference-nonempty"),
-    "BaseExtractor._add_dataset_from_expression_element:.segments:index:-1": ("a file_reference has at least one child (its path literal)", "reference-nonempty"),
+    "BaseExtractor._list_table_from_from_clause_or_join_clause:.segments:index:-1": ("a file_reference has at least one child (its path literal)", "reference-nonempty"),
     "SqlParseColumn._extract_source_columns:.tokens:index:-1": _GROUP_NONEMPTY,
     "parser.sqlparse.utils.get_subquery_parentheses:.tokens:index:-1": _GROUP_NONEMPTY,
     "parser.sqlparse.utils.get_parameters:.tokens:index:-1": _GROUP_NONEMPTY,
@@ -43,19 +44,19 @@ ALLOW = {
     "parser.sqlparse.utils.remove_parenthesis_between_union:[list]:index:-1": ("`offsets` is created as the non-empty list [-1] and only ever appended to", None),
     "LineageRunner.__str__:statements():index:cross-sequence": ("holders and statements are index-aligned: exactly one holder is appended per statement on every non-raising path (rule R05.1)", None),
     "lazy_method.<locals>.wrapper:param:args:index:0": ("decorator wrapper of bound methods: args[0] is self by construction of the call", None),
-    "SqlFluffLineageAnalyzer._list_specific_statement_segment:.segments:index:0": (
-        "a sqlfluff `statement` node wraps exactly one child statement segment (StatementSegment grammar is a single OneOf)", "statement-wraps-one"),
+    # the parse-and-validate routine is a private helper of both entry points (absorbed by the normaliser): one site per entry point
+    "SqlFluffLineageAnalyzer.split_tsql:.segments:index:0": _STMT_WRAPS_ONE,
+    "SqlFluffLineageAnalyzer.analyze:.segments:index:0": _STMT_WRAPS_ONE,
     "SqlFluffTable.of:.segments:index:0": ("an object/table reference node has at least one identifier child (ObjectReferenceSegment is Delimited(identifier, min 1))", "reference-nonempty"),
     "SqlFluffTable.of:.segments:index:i+1": ("dot_idx ranges over range(len(segments) - 2, -1, -1), so dot_idx + 1 <= len(segments) - 1", None),
     "parser.sqlfluff.utils.is_subquery:.segments:index:0": ("a from_expression_element has at least one child (grammar: table expression is mandatory)", "fee-nonempty"),
     "parser.sqlfluff.utils.extract_as_and_target_segment:.segments:index:0": ("a table_expression / from_expression_element child has at least one child segment", "fee-nonempty"),
     "parser.sqlfluff.utils.extract_as_and_target_segment:list_child_segments():index:0": ("a from_expression_element has at least one non-negligible child", "fee-nonempty"),
     "parser.sqlfluff.utils.extract_as_and_target_segment:list_child_segments():index:1": ("reached only when the first child is the LATERAL keyword, which the grammar always follows by the table expression", "fee-nonempty"),
-    "BaseExtractor._add_dataset_from_expression_element:[list]|list_child_segments():index:0": ("a from_expression_element has at least one non-keyword child (its table expression)", "fee-nonempty"),
+    "BaseExtractor._list_table_from_from_clause_or_join_clause:[list]|list_child_segments():index:0": ("a from_expression_element has at least one non-keyword child (its table expression)", "fee-nonempty"),
     "MergeExtractor.extract:list_child_segments():index:i+1": ("the merge_statement grammar requires the join condition and match clauses after the USING source, so a bracketed source is never the last child", "merge-source-not-last"),
     "SqlParseLineageAnalyzer.analyze:token_first():optional-deref": ("statements reach analyze() only through split(), which keeps only pieces with a non-comment first token (rule R05.2)", None),
-    "SqlParseLineageAnalyzer._extract_from_ddl_alter:token_first():optional-deref": ("same statement as in analyze(): it has a non-comment first token", None),
-    "SqlParseLineageAnalyzer._extract_from_dml_merge:.tokens:index:1": ("a sqlparse Parenthesis always holds its opening and closing token, so tokens[1] exists", None),
+    "SqlParseLineageAnalyzer.analyze:.tokens:index:1": ("a sqlparse Parenthesis always holds its opening and closing token, so tokens[1] exists", None),
     "parser.sqlparse.utils.get_subquery_parentheses:token_first():optional-deref": ("dereferenced only after isinstance(target, ...) dispatch; a None target falls through every branch to is_subquery(None) -> False", None),
     "SwapPartitionHandler.handle:get_name():optional-deref": ("a sqlparse Function always has a name token", None),
     "TargetHandler._handle:token_first():optional-deref": ("an Identifier group has at least one token", None),
@@ -145,65 +146,68 @@ def rules(ctx: Ctx) -> None:
 
     # ---- R10.2 syntax errors converted before any extractor runs --------------------------------
     an = prog.cls("sqlfluff.analyzer.SqlFluffLineageAnalyzer")
-    lister = next((m for m in an.methods.values() if any(isinstance(k, ast.Attribute) and k.attr == "violations" for k in prog.walk_fn(m))), None)
-    if lister is None:
-        raise AnalysisError("routine inspecting parsed.violations not found")
-    ctx.touched(lister)
-    lcfg = flow(prog, lister).cfg
     inv = prog.cls("exceptions.InvalidSyntaxException")
-    raises = [c for c in lcfg.nodes.values() if c.kind == "stmt" and isinstance(c.ast, ast.Raise) and c.ast.exc is not None and prog.resolve_expr(c.ast.exc.func if isinstance(c.ast.exc, ast.Call) else c.ast.exc, lister.mod, lister) == ("class", inv.qual)]
-    raises = [r for r in raises if any("violation" in t and p for t, p in lcfg.facts_at(r.id))]
-    ctx.ob("R10.2", "violations-raise-invalid-syntax", len(raises) == 1, lister.loc(), "the violations routine raises InvalidSyntaxException when violations were recorded")
-    # the filter keeps both lexing and parsing errors
-    kinds: set[str] = set()
-    for k in prog.walk_fn(lister):
-        if isinstance(k, ast.Call) and isinstance(k.func, ast.Name) and k.func.id == "isinstance" and len(k.args) == 2 and any(isinstance(a, ast.comprehension) for a in list(prog.ancestors(k))[:3]):
-            kinds |= {u(x) for x in (k.args[1].elts if isinstance(k.args[1], ast.Tuple) else [k.args[1]])}
-    unfiltered = not kinds and any(isinstance(k, ast.comprehension) and "violations" in u(k.iter) and not k.ifs for k in prog.walk_fn(lister))
-    ctx.ob("R10.2", "lex-and-parse-errors-both-count", kinds >= {"SQLLexError", "SQLParseError"} or unfiltered, lister.loc(),
-           f"text the lexer or the parser cannot handle is reported as invalid syntax; the filter keeps {sorted(kinds) or 'everything'}")
-    if raises:
-        r = raises[0]
-        facts = lcfg.facts_at(r.id)
-        vio_names = {t for t, p in facts if p}
-        ctx.ob("R10.2", "raise-iff-violations", any("violation" in t for t in vio_names) and len([t for t, p in facts]) <= 2, f"{lister.mod.path}:{r.lineno}",
-               "the raise is conditioned on the presence of violations only")
-        tree_uses = [c for c in lcfg.nodes.values() if c.ast is not None and c.kind in ("stmt", "cond", "for") and any(isinstance(k, ast.Attribute) and k.attr == "tree" for k in ast.walk(c.ast.iter if c.kind == "for" else c.ast))]
-        cond = next((c for c in lcfg.nodes.values() if c.kind == "cond" and lcfg.reach(c.id, r.id) and "violation" in u(c.ast)), None)
-        ok = bool(tree_uses) and cond is not None and all(lcfg.dominates(cond.id, t.id) for t in tree_uses)
-        ctx.ob("R10.2", "violations-check-dominates-tree-access", ok, lister.loc(), "every access to parsed.tree is dominated by the violations test")
-        none_parsed = [lcfg.node_for(k) for k in prog.walk_fn(lister) if isinstance(k, ast.If) and "parsed_variants" in u(k.test)]
-        ok_np = bool(none_parsed) and cond is not None and any(c is not None and lcfg.dominates(c, cond.id) for c in none_parsed)
-        ctx.ob("R10.2", "nothing-parsed-is-invalid-syntax", ok_np, lister.loc(),
-               "when no variant was parsed at all (templater failure) the violations are reported as invalid syntax before `.tree` (which asserts) is touched")
-    # analyze(): extractors run only on segments coming from that routine (directly or via the cache filled from it)
+    # every routine that parses text (after normalisation the private parse-and-validate helper is part of each entry point)
+    listers = [m for m in prog.funcs.values() if m.mod.name.startswith("sqllineage.core.parser.sqlfluff") and any(isinstance(k, ast.Call) and isinstance(k.func, ast.Attribute) and k.func.attr == "parse_string" for k in prog.walk_fn(m))]
+    ctx.floor("routines calling the sqlfluff parser", len(listers), 1)
+    for lister in listers:
+        ctx.touched(lister)
+        lname = f"{lister.cls.name}.{lister.name}" if lister.cls else lister.name
+        lcfg = flow(prog, lister).cfg
+        raises = [c for c in lcfg.nodes.values() if c.kind == "stmt" and isinstance(c.ast, ast.Raise) and c.ast.exc is not None and prog.resolve_expr(c.ast.exc.func if isinstance(c.ast.exc, ast.Call) else c.ast.exc, lister.mod, lister) == ("class", inv.qual)]
+        raises = [r for r in raises if any("violation" in t and p for t, p in lcfg.facts_at(r.id))]
+        ctx.ob("R10.2", "violations-raise-invalid-syntax", len(raises) == 1, lister.loc(), f"{lname} raises InvalidSyntaxException when the parse recorded violations")
+        # the filter keeps both lexing and parsing errors
+        kinds: set[str] = set()
+        for k in prog.walk_fn(lister):
+            if isinstance(k, ast.Call) and isinstance(k.func, ast.Name) and k.func.id == "isinstance" and len(k.args) == 2 and any(isinstance(a, ast.comprehension) for a in list(prog.ancestors(k))[:3]):
+                kinds |= {u(x) for x in (k.args[1].elts if isinstance(k.args[1], ast.Tuple) else [k.args[1]])}
+        unfiltered = not kinds and any(isinstance(k, ast.comprehension) and "violations" in u(k.iter) and not k.ifs for k in prog.walk_fn(lister))
+        ctx.ob("R10.2", "lex-and-parse-errors-both-count", kinds >= {"SQLLexError", "SQLParseError"} or unfiltered, lister.loc(),
+               f"{lname}: text the lexer or the parser cannot handle is reported as invalid syntax; the filter keeps {sorted(kinds) or 'everything'}")
+        if raises:
+            r = raises[0]
+            facts = lcfg.facts_at(r.id)
+            vio = [(t, p) for t, p in facts if "violation" in t]
+            other = [(t, p) for t, p in facts if "violation" not in t and "tsql_split_cache" not in t]
+            ctx.ob("R10.2", "raise-iff-violations", bool(vio) and len(vio) <= 2 and not other, f"{lister.mod.path}:{r.lineno}",
+                   f"{lname}: the raise is conditioned on the presence of violations only" + (f" (also on `{other[0][0]}`)" if other else ""))
+            tree_uses = [c for c in lcfg.nodes.values() if c.ast is not None and c.kind in ("stmt", "cond", "for") and any(isinstance(k, ast.Attribute) and k.attr == "tree" for k in ast.walk(c.ast.iter if c.kind == "for" else c.ast))]
+            cond = next((c for c in lcfg.nodes.values() if c.kind == "cond" and lcfg.reach(c.id, r.id) and "violation" in u(c.ast)), None)
+            ok = bool(tree_uses) and cond is not None and all(lcfg.dominates(cond.id, t.id) for t in tree_uses)
+            ctx.ob("R10.2", "violations-check-dominates-tree-access", ok, lister.loc(), f"{lname}: every access to parsed.tree is dominated by the violations test")
+            none_parsed = [lcfg.node_for(k) for k in prog.walk_fn(lister) if isinstance(k, ast.If) and "parsed_variants" in u(k.test)]
+            ok_np = bool(none_parsed) and cond is not None and any(c is not None and lcfg.dominates(c, cond.id) for c in none_parsed)
+            ctx.ob("R10.2", "nothing-parsed-is-invalid-syntax", ok_np, lister.loc(),
+                   f"{lname}: when no variant was parsed at all (templater failure) the violations are reported as invalid syntax before `.tree` (which asserts) is touched")
+    # no other routine reads the tree of a parse result
+    for m in prog.funcs.values():
+        if m.mod.name.startswith("sqllineage.core.parser.sqlfluff") and m not in listers:
+            for k in prog.walk_fn(m):
+                if isinstance(k, ast.Attribute) and k.attr == "tree" and isinstance(k.ctx, ast.Load):
+                    ctx.ob("R10.2", "violations-check-dominates-tree-access", False, loc(m.mod, k), f"`{u(k)}` reads a parse tree outside the routines that validate the parse")
+    # analyze(): extractors run only on segments coming from a validated parse (directly or via the cache filled from one)
     analyze = an.methods["analyze"]
-    stsql = an.methods.get("split_tsql")
     ctx.touched(analyze)
-    # the segment handed to the extractors: X in `can_extract(X.type)`; follow X = V[0], V = <sources>
-    srcs = set()
     disp_calls = [k for k in prog.walk_fn(analyze) if isinstance(k, ast.Call) and isinstance(k.func, ast.Attribute) and k.func.attr == "can_extract" and k.args]
-    seg_names = {a.value.id for k in disp_calls for a in [k.args[0]] if isinstance(a, ast.Attribute) and isinstance(a.value, ast.Name)}
-    todo, seen_n = list(seg_names), set()
-    while todo:
-        nm = todo.pop()
-        if nm in seen_n:
-            continue
-        seen_n.add(nm)
-        for kind, node in prog.local_defs(analyze, nm):
-            v = getattr(node, "value", None)
-            if v is None:
-                continue
-            inner = [x.id for x in ast.walk(v) if isinstance(x, ast.Name) and prog.local_defs(analyze, x.id) and x.id != nm]
-            if isinstance(v, ast.Subscript) and isinstance(v.value, ast.Name) or (inner and not any(isinstance(x, ast.Call) for x in ast.walk(v))):
-                todo.extend(inner)
-            else:
-                srcs.add(u(v))
-    ok_src = all(lister.name in s or "tsql_split_cache" in s for s in srcs) and bool(srcs)
-    cache_writers = [m.name for m in an.methods.values() for k in prog.walk_fn(m) if isinstance(k, ast.Subscript) and isinstance(k.ctx, ast.Store) and "tsql_split_cache" in u(k.value)]
-    ok_cache = set(cache_writers) <= {"split_tsql"} and (stsql is None or any(lister.name in u(k) for k in prog.walk_fn(stsql) if isinstance(k, ast.Call)))
+    segs = [a.value for k in disp_calls for a in [k.args[0]] if isinstance(a, ast.Attribute) and isinstance(a.value, ast.Name)]
+    ok_src = bool(segs)
+    srcs = set()
+    for sg in segs:
+        roots = set()
+        for k in prog.influences(analyze, sg):
+            if isinstance(k, ast.Attribute) and k.attr == "tree":
+                roots.add("validated-parse")
+            elif isinstance(k, ast.Attribute) and k.attr == "tsql_split_cache":
+                roots.add("cache")
+            elif isinstance(k, ast.Call) and not (isinstance(k.func, ast.Attribute) and k.func.attr in ("parse_string", "get", "get_children", "append", "extend", "join", "warn") or isinstance(k.func, ast.Name) and k.func.id in ("getattr", "str", "isinstance", "len", "type", "Linter", "InvalidSyntaxException")):
+                roots.add(f"call:{u(k.func)}")
+        srcs |= roots
+        ok_src = ok_src and bool(roots) and roots <= {"validated-parse", "cache"}
+    cache_writers = {m for m in an.methods.values() for k in prog.walk_fn(m) if isinstance(k, ast.Subscript) and isinstance(k.ctx, ast.Store) and "tsql_split_cache" in u(k.value)}
+    ok_cache = cache_writers <= set(listers)
     ctx.ob("R10.2", "extractors-only-see-validated-segments", ok_src and ok_cache, analyze.loc(),
-           f"analyze() takes its statement segment from the violations routine or from the cache that only split_tsql fills from it (sources: {sorted(srcs)})")
+           f"analyze() takes its statement segment from a validated parse or from the cache that only validating routines fill (sources: {sorted(srcs)}; cache writers: {sorted(m.name for m in cache_writers)})")
 
     # ---- R10.3 -----------------------------------------------------------------------------------
     n_sites = 0
